@@ -675,8 +675,19 @@ def manifest(pid, tier, replay):
             raise Broken("Manifest export failed: %s\n%s" % (r["error"], r["out"][-1500:]))
         rng = random.Random(seed())
         vectors = []
+        SAFE = set("abcdefghijklmnopqrstuvwxyzABCDEFGHIJKLMNOPQRSTUVWXYZ0123456789_+-./")
+        KNOWNQ = {"x:y", "a b", "ox:y", "$", "o$", "i$", "oa b", "ia b", "=", ">", ":", "|", "||", "|@"}
+
+        def untabulated(e):
+            """The reference tabulates shell quoting for its vocabulary only: programs whose $in / $out would hold another name that
+            needs quoting are not compared."""
+            return e["ok"] and any((set(p_) - SAFE) and p_ not in KNOWNQ for ed in e["edges"] for p_ in ed["outs"] + ed["ex"])
+        nskip_ast = 0
         for line in open(vec):
             j = json.loads(line)
+            if untabulated(j["exp"]):
+                nskip_ast += 1
+                continue
             vs = variants(j["files"], rng)
             vectors.append((vs[0], j["exp"], "plain"))
             vectors.append((vs[1], j["exp"], "variant"))
@@ -687,14 +698,11 @@ def manifest(pid, tier, replay):
                      env={"OUTT": tvec}, extra=["-noGenerateSpecTE"], workers=8, timeout=2400, xmx="8g")
         if tr["error"] or not os.path.exists(tvec):
             raise Broken("ManifestTok model check / export failed: %s\n%s" % (tr["error"], tr["out"][-1500:]))
-        SAFE = set("abcdefghijklmnopqrstuvwxyzABCDEFGHIJKLMNOPQRSTUVWXYZ0123456789_+-./")
-        KNOWNQ = {"x:y", "a b", "ox:y", "$", "o$", "i$", "oa b", "ia b", "=", ">", ":", "|", "||", "|@"}
         ntok = ntok_skipped = 0
         for line in open(tvec):
             j = json.loads(line)
             e = j["exp"]
-            # the reference tabulates shell quoting for its vocabulary only: skip mutants whose $in / $out would hold another name that needs quoting
-            if e["ok"] and any((set(p_) - SAFE) and p_ not in KNOWNQ for ed in e["edges"] for p_ in ed["outs"] + ed["ex"]):
+            if untabulated(e):
                 ntok_skipped += 1
                 continue
             ntok += 1
@@ -712,6 +720,7 @@ def manifest(pid, tier, replay):
                     "two include-or-subninja statements over two files that bind variables, declare rules and build outputs, with rebinding between and after), TLC-sampled by seed; each program in a plain "
                     "and a layout variant (CRLF, comments, $-newline continuations, $x for ${x}); non-trivial = programs accepted by the reference (their whole graph is compared)",
             "accepted_programs": stats["accepted"], "rejected_programs": stats["rejected"], "exhaustive": False,
+            "programs_skipped_for_untabulated_quoting": nskip_ast,
             "token_mutants": {"states": tr["distinct"], "exported": ntok, "skipped_for_untabulated_quoting": ntok_skipped,
                               "rule": "spec/ManifestTok.tla: deletion, duplication, adjacent swap, substitution / insertion of structural and hostile tokens (':' '|' '||' '|@' '=' newline indent "
                                       "tab bad-escape keywords names) at every position and every truncation of 3 valid token-level programs; mutants where ninja's lexer would split a word are unspecified and not exported"},
